@@ -395,6 +395,9 @@ func C10(c *vf.Check) {
 	for i, rc := range cases {
 		byKind[rc.Kind]++
 		r := results[i]
+		if r.Status == "notrun" {
+			continue
+		}
 		if r.Status != "ok" {
 			c.Violation(J{"kind": rc.Kind, "input": rc.Inp, "script": rc.Trace, "status": r.Status}, fmt.Sprintf("%s: the loop over the iterator did not finish: %s", describe(rc), r.Status))
 			continue
